@@ -135,6 +135,10 @@ def execute(family, cfg, chooser, *, max_steps=None, real_timeout=120.0):
   )
   fine = bool(simcfg.get('fine'))
   s.fine = fine
+  # the digest identifies (configuration, schedule), not the schedule alone
+  s.log('cfg', hashlib.blake2b(
+      json.dumps(cfg, sort_keys=True, default=repr).encode(),
+      digest_size=8).hexdigest())
   random.seed(cfg.get('pyseed', 0))
   _install_uuid(cfg.get('pyseed', 0))
   from ml_metrics._src.chainables import lazy_fns
